@@ -23,11 +23,17 @@ def run_api_property(prop, tier, clauses, design=None, extra_assumptions=(), non
         if e["ev"] == "row":
             add = pipeline_rec.added_molecules(e, mols) if e["arg"]["parses"] and e["out"]["parses"] else {}
             sig = "%s input=%s" % (e["name"], e["argstr"])
+            if clause == "OnlyAdds":
+                sig = "missing_l=%s missing_r=%s %s" % (add.get("l_missing"), add.get("r_missing"), sig)
             detail = {"input": e["argstr"], "reaction": e["reaction"], "input_reaction": e["input_reaction"],
                       "solved": e["solved"], "by": e["by"], "issue": e["issue"], "conf": e["conf_raw"],
                       "threshold": e["threshold_raw"], "added": add, "run": e["name"]}
-            grp = "by=%s added_l=%s added_r=%s" % (e["by"], add.get("l"), add.get("r")) if clause in (
-                "SolvedBalanced", "OnlyAdds") else "by=%s solved=%s" % (e["by"], e["solved"])
+            if clause == "OnlyAdds":
+                grp = "missing_l=%s missing_r=%s" % (add.get("l_missing"), add.get("r_missing"))
+            elif clause == "SolvedBalanced":
+                grp = "by=%s added_l=%s added_r=%s" % (e["by"], add.get("l"), add.get("r"))
+            else:
+                grp = "by=%s solved=%s" % (e["by"], e["solved"])
             rep.fail(clause, sig, detail=detail, group=grp,
                      replay={"inputs": [e["argstr"]], "threshold": float(e["threshold"]) / 1000.0,
                              "clause": clause})
